@@ -266,7 +266,7 @@ structure Ctx where
   V : Verifier
   eciOk : Bytes → EciCheck
   /-- Does `SequencerBlock::try_from_raw` verify the per-rollup proofs?  `false` is the code as it
-      is (finding FB1); `true` is the code with `/verif/proposed_fixes/FB1.diff` applied. -/
+      is (finding FB1); `true` is the code as repaired by `fix:` 52f5ed5 (= `/verif/proposed_fixes/FB1.diff`), which is what the driver runs. -/
   fullChecksRts : Bool := false
 
 def rfcCtx (Hs : Hashes) (eciOk : Bytes → EciCheck) (fix : Bool := false) : Ctx :=
@@ -674,7 +674,7 @@ def removeMeta (hs : List Meta) (h : Bytes) : List Meta := hs.filter (fun m => m
 
 /-- The first loop of `reconstruct_blocks_from_verified_blobs`: match rollup blobs to headers.
     `checkId = false` is the code as it is; `checkId = true` additionally requires the blob's
-    rollup id to be the conductor's (the repair proposed for DESIGN §7 F10). -/
+    rollup id to be the conductor's (the repair of DESIGN §7 F10, `fix:` 793934a; the driver runs with `true`). -/
 def matchBlobs (c : Ctx) (checkId : Bool) (rollupId : Bytes) :
     List Blob → List Meta → Outcome (List Reconstructed × List Meta)
   | [], hs => .value ([], hs)
